@@ -198,6 +198,123 @@ def canonicalSplitUncapped (verts : List (V3 K)) (tris : List Tri) (i : Fin 3) (
 
 end Cut
 
+/-! ## `TriMesh::intersection_with_local_plane` (split_trimesh.rs): section polyline -/
+namespace Section
+variable {K : Type} [Num K]
+open Cut
+
+/-- state of step 2: `new_vertices`, `intersections_found`, `existing_vertices_found`, `index_adjacencies` -/
+structure State (K : Type) where
+  verts : Array (V3 K)
+  found : List ((Nat × Nat) × Nat)
+  existing : List (Nat × Nat)
+  adj : Array (List Nat)
+
+/-- `add_segment_adjacencies(idx_a, idx_b)`; `none` = `assert!(idx_a <= index_adjacencies.len())` fired -/
+def addAdj (adj : Array (List Nat)) (a b : Nat) : Option (Array (List Nat)) :=
+  if adj.size < a then none
+  else if a < adj.size then some (adj.setIfInBounds a (adj.getD a [] ++ [b]))
+  else some (adj.push [b])
+
+/-- `add_segment_adjacencies_symmetric(idx_a, idx_b)` -/
+def addAdjSym (adj : Array (List Nat)) (a b : Nat) : Option (Array (List Nat)) :=
+  if a < b then (addAdj adj a b).bind fun adj1 => addAdj adj1 b a
+  else (addAdj adj b a).bind fun adj1 => addAdj adj1 a b
+
+/-- `intersect_edge(idx_a, idx_b)` of the section routine: the crossing point is computed from the *input* vertices -/
+def intersectEdge (n : V3 K) (bias : K) (V0 : Array (V3 K)) (st : State K) (a b : Nat) : State K × Nat :=
+  let key := sortedPair a b
+  match st.found.lookup key with
+  | some k => (st, k)
+  | none =>
+    let x := crossing n bias (V0.getD a V3.zero) (V0.getD b V3.zero)
+    ({ st with verts := st.verts.push x, found := (key, st.verts.size) :: st.found }, st.verts.size)
+
+/-- `*existing_vertices_found.entry(id).or_insert_with(|| { new_vertices.push(vertices[id]); new_vertices.len() - 1 })` -/
+def existingVertex (V0 : Array (V3 K)) (st : State K) (id : Nat) : State K × Nat :=
+  match st.existing.lookup id with
+  | some k => (st, k)
+  | none => ({ st with verts := st.verts.push (V0.getD id V3.zero), existing := (id, st.verts.size) :: st.existing }, st.verts.size)
+
+/-- one iteration of `for idx in indices.iter()`; `none` = `assert!` / `unreachable!()` fired -/
+def stepTri (n : V3 K) (bias : K) (V0 : Array (V3 K)) (colors : Array Nat) (st : State K) (idx : Tri) : Option (State K) :=
+  match classify (fun i => colors.getD i 0) idx with
+  | (f0, Feat.unknown) =>
+    (match f0 with
+     | Feat.edge _ => none
+     | _ => some st)
+  | (Feat.vertex iv1, Feat.vertex iv2) =>
+    let (st1, o1) := existingVertex V0 st (idx.get iv1)
+    let (st2, o2) := existingVertex V0 st1 (idx.get iv2)
+    (addAdjSym st2.adj o1 o2).map fun adj => { st2 with adj := adj }
+  | (Feat.vertex iv, Feat.edge ie) | (Feat.edge ie, Feat.vertex iv) =>
+    let ic := (ie + 2) % 3
+    if iv ≠ ic then none else
+    let (st1, x) := intersectEdge n bias V0 st (idx.get ie) (idx.get ((ie + 1) % 3))
+    let (st2, oc) := existingVertex V0 st1 (idx.get ic)
+    (addAdjSym st2.adj oc x).map fun adj => { st2 with adj := adj }
+  | (Feat.edge e1, Feat.edge e2) =>
+    let e2' := if e2 ≠ (e1 + 1) % 3 then e1 else e2
+    let idxA := idx.get e2'
+    let idxB := idx.get ((e2' + 1) % 3)
+    let idxC := idx.get ((e2' + 2) % 3)
+    let (st1, x1) := intersectEdge n bias V0 st idxC idxA
+    let (st2, x2) := intersectEdge n bias V0 st1 idxA idxB
+    (addAdjSym st2.adj x1 x2).map fun adj => { st2 with adj := adj }
+  | _ => none
+
+def stepLoop (n : V3 K) (bias : K) (V0 : Array (V3 K)) (colors : Array Nat) : State K → List Tri → Option (State K)
+  | st, [] => some st
+  | st, t :: rest => match stepTri n bias V0 colors st t with
+    | none => none
+    | some st' => stepLoop n bias V0 colors st' rest
+
+/-- the inner `loop { … }` of step 3: walk from `prev` to `current`, erasing the traversed adjacency entries, until stuck.
+Every iteration erases at least one entry, so `fuel` = number of entries + 1 is never exhausted. -/
+def walk : Nat → Array (List Nat) → List (Nat × Nat) → Nat → Nat → Bool → Array (List Nat) × List (Nat × Nat)
+  | 0, adj, segs, _, _, _ => (adj, segs)
+  | fuel + 1, adj, segs, prev, current, forward =>
+    let adj1 := adj.setIfInBounds prev ((adj.getD prev []).filter (· != current))
+    let adj2 := adj1.setIfInBounds current ((adj1.getD current []).filter (· != prev))
+    let segs1 := segs ++ [if forward then (prev, current) else (current, prev)]
+    match (adj2.getD current []).head? with
+    | some next => walk fuel adj2 segs1 current next forward
+    | none => (adj2, segs1)
+
+/-- `while let Some(start) = index_adjacencies[first].first().copied() { …; forward = !forward }` -/
+def walksFrom : Nat → Array (List Nat) → List (Nat × Nat) → Nat → Bool → Array (List Nat) × List (Nat × Nat)
+  | 0, adj, segs, _, _ => (adj, segs)
+  | fuel + 1, adj, segs, first, forward =>
+    match (adj.getD first []).head? with
+    | none => (adj, segs)
+    | some start =>
+      let (adj1, segs1) := walk (fuel + 1) adj segs first start forward
+      walksFrom fuel adj1 segs1 first (!forward)
+
+/-- step 3: `for first in 0..index_adjacencies.len()` -/
+def orient (adj : Array (List Nat)) : List (Nat × Nat) :=
+  let fuel := (adj.toList.map List.length).sum + 1
+  ((List.range adj.size).foldl (fun (acc : Array (List Nat) × List (Nat × Nat)) first =>
+    walksFrom fuel acc.1 acc.2 first true) (adj, [])).2
+
+inductive Result (K : Type) where
+  | negative
+  | positive
+  | intersect (verts : List (V3 K)) (segs : List (Nat × Nat))
+
+/-- `TriMesh::intersection_with_local_plane(local_axis, bias, epsilon)`; `none` = the Rust code panics -/
+def localSection (verts : List (V3 K)) (tris : List Tri) (n : V3 K) (bias eps : K) : Option (Result K) :=
+  if !validMesh verts.length tris then none else
+  match meshVerdict verts n bias eps with
+  | .positive => some .positive
+  | .negative => some .negative
+  | .pair _ _ =>
+    match stepLoop n bias verts.toArray (verts.map (vertexColour n bias eps)).toArray ⟨#[], [], [], #[]⟩ tris with
+    | none => none
+    | some st => some (.intersect st.verts.toList (orient st.adj))
+
+end Section
+
 /-! ## `clip_segment_segment_with_normal` (clip_segment_segment.rs, 2-D crate only) -/
 
 /-- `utils::inv(val)`: `if val == 0.0 { 0.0 } else { 1.0 / val }` -/
